@@ -748,8 +748,11 @@ func (r *vRunner) doMatch(o vOp) {
 		outcome = "passed"
 	case [4]int{0, 0, 0, 0}:
 		outcome = "nocount"
-		if len(logs) == 1 && vClassifyLog(logs[0]) == "warning" && len(errs) == 0 {
-			outcome = "warned"
+		if k := ""; len(logs) == 1 && len(errs) == 0 {
+			// one log, no error, no counter moved: the call was turned away with a warning (however it is worded)
+			if k = vClassifyLog(logs[0]); k == "warning" || k == "unknown" {
+				outcome = "warned"
+			}
 		}
 	default:
 		outcome = fmt.Sprintf("multi:%v", d)
@@ -962,6 +965,7 @@ func TestVerifTrace(t *testing.T) {
 	w := bufio.NewWriterSize(fout, 1<<20)
 	defer w.Flush()
 
+	fmt.Fprintln(w, vCanaries())
 	rd := bufio.NewReaderSize(fin, 1<<20)
 	for {
 		line, err := rd.ReadBytes('\n')
